@@ -391,14 +391,16 @@ def deleteRows (g : Graph) (detach : Bool) (vars : List String) (s : St) (T : Li
     for n in nodes do
       if (attachedOut g n ++ attachedIn g n).any (!edges.contains ·) then throw .other
   let mut s := s
+  let mut detached : List RelId := []
   if detach then
-    let mut detached : List RelId := []
     for n in nodes do
       for e in attachedOut g n ++ attachedIn g n do
         if !detached.contains e then
           detached := detached ++ [e]
           s := { s with ops := s.ops ++ [.tombstoneEdge e], count := s.count + 1 }
-  for e in edges do s := { s with ops := s.ops ++ [.tombstoneEdge e], count := s.count + 1 }
+  -- an explicit target already removed while detaching is skipped (fix 2b91f76)
+  for e in edges do
+    if !detached.contains e then s := { s with ops := s.ops ++ [.tombstoneEdge e], count := s.count + 1 }
   for n in nodes do s := { s with ops := s.ops ++ [.tombstoneNode n], count := s.count + 1 }
   return s
 
@@ -481,16 +483,13 @@ def mergeRow (g : Graph) (next : Nat) (pat : PathPat) (onC onM : List SetItem) (
     let cands := if bound.isEmpty then findCandidates g s np.labels props else bound
     let (s, cands, created) :=
       if cands.isEmpty then let (s, id) := mergeCreateNode next np props s; (s, [id], true) else (s, cands, false)
-    let mut s := s
-    let mut out : List URow := []
-    for n in cands do
+    -- one output row per candidate; ON CREATE items if the node was just created, else ON MATCH items
+    cands.foldlM (fun (acc : St × List URow) n => do
       let u' : URow := match np.var with
-        | some x => ({ u with row := u.row.set x (.node n) } : URow).setOv x (materialize g s n)
+        | some x => ({ u with row := u.row.set x (.node n) } : URow).setOv x (materialize g acc.1 n)
         | none => u
-      let (s', u'') ← mergeApplySet A params g (if created then onC else onM) s u'
-      s := s'
-      out := out ++ [u'']
-    return (s, out)
+      let (s', u'') ← mergeApplySet A params g (if created then onC else onM) acc.1 u'
+      pure (s', acc.2 ++ [u''])) (s, [])
   | [(rp, dn)] =>
     let sn := pat.start
     let sp ← mergeProps A params g u sn.props
